@@ -15,6 +15,7 @@ import (
 	"net/http"
 	"os"
 	"path/filepath"
+	"runtime"
 	"sort"
 	"strconv"
 	"sync"
@@ -88,8 +89,9 @@ type w1Inst struct {
 	calls map[*w1Call]struct{} // outstanding client calls, under w.mu
 	meta  *metajournal.MetricsStorage
 
-	killedAt time.Time
-	reaped   bool
+	killedAt  time.Time
+	reaped    bool
+	histExits atomic.Int32 // historic senders that ended in the fenced client
 }
 
 type w1World struct {
@@ -120,6 +122,8 @@ type w1World struct {
 
 	lastWork []uint32 // per agent: last second the workload was applied for
 	zombies  []*w1Inst
+	allInsts []*w1Inst
+	clients  []*w1Client
 
 	or w1Oracle
 }
@@ -209,6 +213,13 @@ func TestVerifW1(t *testing.T) {
 
 func w1Exec(t *testing.T, r *verifsim.Run) {
 	verifsim.Bubble(t, func(t *testing.T) { w1Run(t, r) })
+	if os.Getenv("VERIF_W1_DEBUG") != "" {
+		fmt.Printf("W1DEBUG goroutines after run: %d\n", runtime.NumGoroutine())
+		if os.Getenv("VERIF_W1_DEBUG") == "stacks" {
+			buf := make([]byte, 1<<20)
+			os.Stdout.Write(buf[:runtime.Stack(buf, true)])
+		}
+	}
 }
 
 func w1Pick(c *verifsim.Choices, label string, vals ...int) int { return vals[c.Intn(len(vals), label)] }
@@ -283,7 +294,6 @@ func w1Run(t *testing.T, r *verifsim.Run) {
 	// start a little off the second boundary and off every 100 ms grid
 	time.Sleep(time.Duration(137+c.Intn(800, "start_offset_ms"))*time.Millisecond + 311*time.Microsecond)
 	w.start = time.Now()
-	defer func() { r.SimNanos = int64(time.Since(w.start)) }()
 	w.or.init(w)
 	w.faultsOn = cfg.faulty
 
@@ -400,8 +410,11 @@ func (w *w1World) startAgent(a int, fromDir string) {
 		panic("w1 harness: SaveSecondsImmediately knob did not reach the shard")
 	}
 	agent.VerifW1SwapClients(ag, func(i int, old rpc.Client) rpc.Client {
-		return &w1Client{w: w, inst: inst, replica: i}
+		cl := &w1Client{w: w, inst: inst, replica: i}
+		w.clients = append(w.clients, cl)
+		return cl
 	})
+	w.allInsts = append(w.allInsts, inst)
 	w.mu.Lock()
 	w.insts[a] = inst
 	w.mu.Unlock()
@@ -435,19 +448,29 @@ func (w *w1World) killAgent(inst *w1Inst) {
 		s.StopPreprocessor()
 	}
 	verifsim.Wait()
+	if os.Getenv("VERIF_W1_DEBUG") != "" {
+		fmt.Printf("W1DEBUG kill agent%d.g%d: queue after wake %v alive=%v goroutines=%d\n", inst.agent, inst.gen, agent.VerifW1HistoricQueue(inst.ag), agent.VerifW1ReplicaAlive(inst.ag), runtime.NumGoroutine())
+	}
 	inst.killedAt = time.Now()
 	w.zombies = append(w.zombies, inst)
 }
 
-// reapZombies: second stage of a kill, once every historic sender had time to leave its retry sleeps:
-// the live checkers are led into the fenced client and the erase goroutine finds an empty queue.
+// reapZombies: a killed agent's historic senders end when they next call the (fenced) client, which
+// they do only through a replica they believe alive; failing sends of the dying process flip that
+// belief, so it is re-asserted until every sender had time to leave its 10 s "no replica" sleep.
+// Then (second stage) the live checkers are led into the fenced client and the queue is emptied.
 func (w *w1World) reapZombies(force bool) {
 	for _, z := range w.zombies {
-		if !z.reaped && (force || time.Since(z.killedAt) > 12*time.Second) {
-			z.reaped = true
-			agent.VerifW1SetAllAlive(z.ag, false)
-			agent.VerifW1ClearHistoricQueue(z.ag)
+		if z.reaped {
+			continue
 		}
+		if !force && time.Since(z.killedAt) <= 14*time.Second {
+			agent.VerifW1SetAllAlive(z.ag, true)
+			continue
+		}
+		z.reaped = true
+		agent.VerifW1SetAllAlive(z.ag, false)
+		agent.VerifW1ClearHistoricQueue(z.ag)
 	}
 }
 
@@ -611,7 +634,7 @@ func (w *w1World) actReplica() {
 		w.stopReplica(rep)
 		return
 	}
-	if time.Since(rep.downSince) < time.Second {
+	if time.Since(rep.downSince) < time.Second || w.cfg.spareScenario { // scenario: down until faults_stop
 		return
 	}
 	w.restartReplica(rep)
@@ -633,6 +656,7 @@ func (w *w1World) stopReplica(rep *w1Replica) {
 
 func (w *w1World) restartReplica(rep *w1Replica) {
 	w.r.Sched("restart", fmt.Sprintf("r%d", rep.idx+1))
+	w.or.outage[rep.idx] += time.Since(rep.downSince)
 	w.mu.Lock()
 	rep.gen++
 	w.mu.Unlock()
@@ -688,6 +712,7 @@ func (w *w1World) faultsStop() {
 func (w *w1World) teardown() {
 	defer func() { _ = recover() }() // a harness problem while tearing down must not mask the run's result
 	verifsim.Wait()
+	w.r.SimNanos = int64(time.Since(w.start))
 	for _, inst := range w.insts {
 		if inst != nil {
 			w.killAgent(inst)
@@ -698,12 +723,43 @@ func (w *w1World) teardown() {
 			w.stopReplica(rep)
 		}
 	}
-	time.Sleep(12 * time.Second)
+	for i := 0; i < 15; i++ {
+		w.reapZombies(false)
+		time.Sleep(time.Second)
+	}
+	verifsim.Wait()
 	w.reapZombies(true)
-	// live checkers tick every second, test-connection loops once a minute (spread over a second one),
-	// the erase goroutine looks at its queue once a minute
+	// live checkers tick every second, test-connection loops once a minute (spread over a second one)
 	time.Sleep(125 * time.Second)
 	verifsim.Wait()
+	// the erase goroutine of every agent process: empty queue, one entry so that it sits in its
+	// select, then the (otherwise unused) cancellation with the shard mutex pre-locked
+	nowUnix := uint32(time.Now().Unix())
+	var clean []*w1Inst
+	for _, inst := range w.allInsts {
+		if int(inst.histExits.Load()) == data_model.MaxHistorySendStreams*len(inst.ag.Shards) {
+			clean = append(clean, inst) // only the erase goroutine is left to take an entry
+		} else {
+			w.r.Probe("harness_zombie_historic_senders_left")
+		}
+		agent.VerifW1ClearHistoricQueue(inst.ag)
+	}
+	time.Sleep(250 * time.Millisecond)
+	verifsim.Wait()
+	for _, inst := range clean {
+		agent.VerifW1WakeHistoricSenders(inst.ag, nowUnix, 1)
+	}
+	verifsim.Wait()
+	for _, inst := range clean {
+		agent.VerifW1StopEraser(inst.ag)
+	}
+	verifsim.Wait()
+	for _, inst := range w.allInsts {
+		agent.VerifW1CloseDisk(inst.ag)
+	}
+	for _, cl := range w.clients { // nothing of this run stays reachable from what may be left behind
+		cl.w, cl.inst = nil, nil
+	}
 }
 
 func w1CopyDir(from, to string) {
